@@ -159,6 +159,10 @@ use std::{collections::{HashMap, HashSet}, rc::Rc};
 //@ret r
 //@ensures label=four_seam_formatters props=C13,C14
     r@.len() == 4,
+    forall|b: Seq<u8>, p: int| #![trigger r@[0].spec_format(b, p)] r@[0].spec_format(b, p) == indent_spec(b, p),
+    forall|b: Seq<u8>, p: int| #![trigger r@[1].spec_format(b, p)] r@[1].spec_format(b, p) == empty_line_spec(b, p),
+    forall|b: Seq<u8>, p: int| #![trigger r@[2].spec_format(b, p)] r@[2].spec_format(b, p) == prev_remover_spec(b, p),
+    forall|b: Seq<u8>, p: int| #![trigger r@[3].spec_format(b, p)] r@[3].spec_format(b, p) == next_remover_spec(b, p),
 //@end
 
 //@fn id=build_remover file=chiritori.rs name=build_remover props=C01,C02,C03,C05,C06,C11
